@@ -8,7 +8,8 @@ VARIABLES h, last
 vars == <<h, last>>
 None == 1000
 Empty == [child |-> [x \in Obj |-> NoneO], kids |-> [x \in Obj |-> <<>>], d |-> [x \in Obj |-> <<>>],
-          s |-> [x \in Obj |-> {}], dl |-> [x \in Obj |-> <<>>], hasx |-> [x \in Obj |-> 0], xv |-> [x \in Obj |-> 0]]
+          s |-> [x \in Obj |-> {}], dl |-> [x \in Obj |-> <<>>], hasx |-> [x \in Obj |-> 0], xv |-> [x \in Obj |-> 0],
+          box |-> [x \in Obj |-> <<>>], boxi |-> [x \in Obj |-> 0]]
 Mk(t, op, x, a, xs, ps) == [t |-> t, op |-> op, x |-> x, a |-> a, xs |-> xs, ps |-> ps]
 Muts == {Mk("child", "", x, <<y, 0, 0>>, <<>>, <<>>) : x \in Obj, y \in 0..NObj}
         \cup {Mk("kids", "append", x, <<0, 0, 0>>, <<y>>, <<>>) : x \in KidsOwners, y \in Obj}
@@ -21,6 +22,8 @@ Muts == {Mk("child", "", x, <<y, 0, 0>>, <<>>, <<>>) : x \in Obj, y \in 0..NObj}
         \cup {Mk("s", "clear", x, <<0, 0, 0>>, <<>>, <<>>) : x \in SetOwners}
         \cup {Mk("dl", "setitem", x, <<1, 0, 0, 0>>, q, <<>>) : x \in SetOwners, q \in {<<>>} \cup {<<y>> : y \in Obj}}
         \cup {Mk("addx", "", x, <<0, 0, 0>>, <<>>, <<>>) : x \in SetOwners}
+        \cup {Mk("boxassign", "", x, <<0, 0, 0>>, q, <<>>) : x \in SetOwners, q \in {<<>>} \cup {<<y>> : y \in Obj}}
+        \cup {Mk("boxint", "", x, <<0, 0, 0>>, <<>>, <<>>) : x \in SetOwners}
         \cup {Mk("del", op, x, <<0, 0, 0>>, <<>>, <<>>) : x \in KidsOwners, op \in {"child", "kids", "d", "s", "dl"}}
 Init == h = Empty /\ last = Mk("init", "", 1, <<0, 0, 0>>, <<>>, <<>>)
 Do(m) == /\ (m.t = "kids" => L!Apply(m.op, h.kids[m.x], "id", m.a, m.xs).excs = {""})
